@@ -142,6 +142,8 @@ def gen_cases(rng, tier):
         cs.append(Case(S.gen_history(rng, asa=1), "always-seqnum-assign"))
     for _ in range(60 * mult):
         cs.append(Case(S.gen_acceptor_logon(rng), "acceptor-logon-flags"))
+    for line in S.gen_big_batches(rng):
+        cs.append(Case(line, "big-batches"))
     return cs
 
 
